@@ -82,4 +82,10 @@ def run(repo, tier) -> Result:
 
     check_ctor_effects("C13", res, repo)
     check_registry_writers("C13", res, repo)
+    from ..framework_rules import check_name_matching, check_selection
+    from ..ownership import check_purge_paths
+
+    check_purge_paths("C13", res, repo)
+    check_selection("C13", res, repo)
+    check_name_matching("C13", res, repo)
     return res
